@@ -30,6 +30,7 @@ def parseStmt (locked : Bool) (s : String) : Option Stmt :=
   match s.front with
   | 'N' => match tl.splitOn "/" with
     | [ds] => match nats ds with | some [d, sc] => some (connectStmt locked d sc) | _ => none
+    | ["!", _, lk] => some (connectBad (if lk == "-" then none else lk.toNat?) 77)
     | ["-", _, lk] => some (connectNone (if lk == "-" then none else lk.toNat?))
     | [ds, flags, lk] => match nats ds with
       | some [d, sc] =>
@@ -48,6 +49,7 @@ def parseStmt (locked : Bool) (s : String) : Option Stmt :=
   | 'A' => match nats tl with | some [t, c] => some (commentStmt t c) | _ => none
   | 'O' => match nats tl with | some [t, c] => some (replaceTable t c) | _ => none
   | 'Z' => some nopStmt
+  | 'H' => some nopStmt        -- a session-setting probe (time zone): constant in every session, so nothing to predict
   | 'Q' => some nopStmt        -- conn.close(): no engine call the model knows; other sessions are not affected
   | 'R' => tl.toNat?.map selectStmt
   | 'W' => tl.toNat?.map showStmt
@@ -136,6 +138,7 @@ and the theorems apply. -/
 
 def opTag : Key → Op → String
   | .db _, .create => "wa"
+  | .db _, .bad => "wa"
   | .db _, .setInfo => "wi"
   | .schema _ _, .create => "ws"
   | .tbl _, .create => "wt"
